@@ -154,12 +154,15 @@ Fixpoint starts_with (p s : string) : bool :=
   | String _ _, EmptyString => false
   end.
 
-(* a disclosure is withheld when its path is redacted or lies below a redacted path *)
-Definition withheld (redacted : list string) (path : string) : bool :=
-  existsb (fun r => String.eqb path r || starts_with (r ++ "/") path) redacted.
+(* a disclosure is withheld when a redacted string is the path of a disclosable claim and that claim
+   is the disclosure's own claim or encloses it; redacting anything else changes nothing *)
+Definition is_disclosable (paths : list dpath) (r : string) : bool :=
+  existsb (fun p => String.eqb (fst p) r) paths.
+Definition withheld (paths : list dpath) (redacted : list string) (path : string) : bool :=
+  existsb (fun r => is_disclosable paths r && (String.eqb path r || starts_with (r ++ "/") path)) redacted.
 
 Definition selected (h : holder) : list string :=
-  map (fun p => d_str (snd p)) (filter (fun p => negb (withheld (h_redacted h) (fst p))) (h_paths h)).
+  map (fun p => d_str (snd p)) (filter (fun p => negb (withheld (h_paths h) (h_redacted h) (fst p))) (h_paths h)).
 
 (* jwt ~ d1 ~ ... ~ dn ~ *)
 Definition presentation_prefix (jwt : string) (ds : list string) : string :=
